@@ -3,7 +3,7 @@
 PROP = dict(
     level="proof",
     lean_modules=['PopsModel.Props.C09', 'PopsModel.Props.C01Step', 'PopsModel.Props.NonVacuous.Calendar', 'PopsModel.Props.RunModel'],
-    theorems=['Pops.C09_order', 'Pops.C09_iff', 'Pops.C09_index', 'Pops.C09_frame_disabled', 'Pops.C09_spread_block', 'Pops.C09_compose', 'Pops.C09_frame_inputs', 'Pops.C09_measurements_pure', 'Pops.C09_run_prefix', 'Pops.C09_run_frame', 'Pops.C09_run_prefix_domain', 'Pops.C09_run_prefix_removed', 'Pops.C09_run_frame_removed'],
+    theorems=['Pops.C09_order', 'Pops.C09_iff', 'Pops.C08_config_own_n', 'Pops.C09_index', 'Pops.C09_frame_disabled', 'Pops.C09_spread_block', 'Pops.C09_compose', 'Pops.C09_frame_inputs', 'Pops.C09_measurements_pure', 'Pops.C09_run_prefix', 'Pops.C09_run_frame', 'Pops.C09_run_prefix_domain', 'Pops.C09_run_prefix_removed', 'Pops.C09_run_frame_removed'],
     commands=['hp.plan', 'hp.after', 'hp.cfg', 'hp.uniforms', 'cfgsched', 'mm.plan', 'mm.after'],
     runs={
         "quick": [('h_host', 'pool', 0, 1500), ('h_model', 'model', 0, 400), ('h_date', 'config', 0, 600), ('h_mmodel', 'multi', 0, 150)],
